@@ -98,7 +98,7 @@ def run(specs, workdir, tier):
     cmd = ['cargo', 'kani', '-Z', 'function-contracts', '-Z', 'stubbing', '-Z', 'unstable-options',
            '--harness-timeout', '%ds' % tmo, '-j', '8', '--output-format', 'terse', '--exact']
     for s in specs:
-        cmd += ['--harness', s.get('path', s['harness'])]
+        cmd += ['--harness', s.get('path', s.get('qualified', s['harness']))]
     t0 = time.time()
     p = subprocess.run(cmd, cwd=KDIR, env=_env(), capture_output=True, text=True)
     dt = time.time() - t0
@@ -134,7 +134,7 @@ def run(specs, workdir, tier):
 
 def playback(s, KDIR):
     cmd = ['cargo', 'kani', '-Z', 'function-contracts', '-Z', 'stubbing', '-Z', 'concrete-playback',
-           '--concrete-playback=print', '--exact', '--harness', s.get('path', s['harness']), '--output-format', 'terse']
+           '--concrete-playback=print', '--exact', '--harness', s.get('path', s.get('qualified', s['harness'])), '--output-format', 'terse']
     try:
         p = subprocess.run(cmd, cwd=KDIR, env=_env(), capture_output=True, text=True, timeout=600)
     except subprocess.TimeoutExpired:
